@@ -207,6 +207,9 @@ func (g *Global) checkWhitelist(wl *Whitelist) []*Obligation {
 	case len(offs) > 0:
 		o.Result = "failed"
 		o.Detail = fmt.Sprintf("%s %s: not in whitelist: %s", wl.Kind, wl.Target, strings.Join(offs, "; "))
+	case sites == 0 && len(wl.Allowed) == 1 && wl.Allowed[0] == "-":
+		o.Result = "proved"
+		o.Detail = fmt.Sprintf("no site in %d functions (none is allowed)", len(g.allFns))
 	case sites == 0:
 		o.Result = "failed"
 		o.Detail = fmt.Sprintf("%s %s: no site found in the program (contract target missing)", wl.Kind, wl.Target)
